@@ -152,6 +152,38 @@ class Ctx:
                  f"{len(self.known_hits)} known finding(s), {wall:.1f}s")
         return 1 if self.violations else 0
 
+    # -- Apalache: oracle lemmas lifted from the lattice to all integers ----------------
+    def lift_lemmas(self, items, timeout: int = 240) -> None:
+        """items: (module under spec/lemmas, invariant, must_hold).  `apalache-mc check --length=0 --inv=..` with every
+        variable ranging over Int proves a polynomial identity of the oracle for ALL integers (not only the lattice TLC
+        enumerated).  A lemma that is refuted, or a falsified control that is not, is a machinery failure (the oracle
+        would be wrong); one that does not finish is reported as not lifted and nothing depends on it."""
+        exe = shutil.which("apalache-mc")
+        res = self.cov.setdefault("lemmas_lifted_to_all_integers", [])
+        if exe is None:
+            self.assumptions.append("apalache-mc not found: the oracle lemmas were checked on the lattice only")
+            return
+        for module, inv, must_hold in items:
+            out = self.work / f"apalache-{module}-{inv}"
+            t0 = time.time()
+            try:
+                r = subprocess.run([exe, "check", "--length=0", f"--inv={inv}", f"--out-dir={out}", f"{module}.tla"],
+                                   cwd=str(SPEC / "lemmas"), capture_output=True, text=True, timeout=timeout)
+                txt = r.stdout + r.stderr
+                verdict = "holds" if "The outcome is: NoError" in txt else ("refuted" if "The outcome is: Error" in txt else "failed")
+            except subprocess.TimeoutExpired:
+                verdict = "not lifted (timeout)"
+            shutil.rmtree(out, ignore_errors=True)
+            res.append({"module": module, "lemma": inv, "expected": "holds" if must_hold else "refuted (control)",
+                        "apalache": verdict, "seconds": round(time.time() - t0, 1)})
+            self.log(f"Apalache {module}.{inv}: {verdict}")
+            if verdict == "failed":
+                raise MachineryError(f"apalache-mc failed on {module}.{inv}: {txt[-400:]}")
+            if must_hold and verdict == "refuted":
+                raise MachineryError(f"oracle lemma {module}.{inv} is refuted over the integers")
+            if not must_hold and verdict == "holds":
+                raise MachineryError(f"falsified control {module}.{inv} was not refuted: the lifting is vacuous")
+
     # -- TLC ---------------------------------------------------------------------------
     def tlc(self, module: str, cfg: str, *, name: str | None = None, workers: int = 16,
             dump: bool = False, simulate: str | None = None, depth: int | None = None,
